@@ -285,11 +285,11 @@ def make(name, seed, n_jobs="default"):
 # input builders (pure functions of the case description; driver side)
 
 
-def series_data(n, variant, index, seed):
+def series_data(n, variant, index, seed, start=0):
     import numpy as np
     import pandas as pd
     r = np.random.RandomState(seed)
-    t = np.arange(n, dtype=float)
+    t = np.arange(start, start + n, dtype=float)
     v = 20.0 + 0.5 * t + 3.0 * np.sin(t * 2 * np.pi / 4.0) + r.normal(0, 0.4, n)
     v = np.round(v, 3)
     if variant == "outliers":          # spikes near both ends and in the middle
@@ -305,20 +305,20 @@ def series_data(n, variant, index, seed):
         v[n // 2:] += 15.0
         v[3:7] = v[3]
     if index == "range":
-        idx = pd.RangeIndex(n)
+        idx = pd.RangeIndex(start, start + n)
     elif index == "int":
-        idx = pd.Index(np.arange(5, 5 + n))
+        idx = pd.Index(np.arange(5 + start, 5 + start + n))
     elif index == "datetime":
-        idx = pd.date_range("2001-01-31", periods=n, freq="M")
+        idx = pd.date_range("2001-01-31", periods=start + n, freq="M")[start:]
     else:
-        idx = pd.period_range("2001-01", periods=n, freq="M")
+        idx = pd.period_range("2001-01", periods=start + n, freq="M")[start:]
     return pd.Series(v, index=idx, name="y")
 
 
-def frame_data(n, variant, index, seed):
+def frame_data(n, variant, index, seed, start=0):
     import pandas as pd
-    a = series_data(n, variant, index, seed)
-    b = series_data(n, variant, index, seed + 1) * 2.0 + 1.0
+    a = series_data(n, variant, index, seed, start)
+    b = series_data(n, variant, index, seed + 1, start) * 2.0 + 1.0
     return pd.DataFrame({"a": a, "b": b})
 
 
@@ -643,7 +643,8 @@ def _build(case, shift=0):
     if kind == "series":
         mk = frame_data if inp["container"] == "frame" else series_data
         Z = mk(inp["n"], inp["variant"], inp["index"], inp["dseed"])
-        Z2 = mk(inp["n"], inp["variant"], inp["index"], inp["dseed"] + 7)
+        # other data: shorter, starting 3 steps later (another seasonal phase, other positions)
+        Z2 = mk(inp["n"] - 5, inp["variant"], inp["index"], inp["dseed"] + 7, 3)
         fit = [("Z", Z, False)]
         calls = [["transform", "transform", [("Z", Z, False)]],
                  ["transform-other", "transform", [("Z", Z2, False)]]]
@@ -813,7 +814,7 @@ def _run_est(case):
     f2, c2 = fresh_calls()
     e2 = make(name, seed)
     _fit(e2, f2)
-    compare("equal-params", e2, c2)
+    compare_rev("equal-params", e2, c2)    # first calls of a fresh instance, in the other order
 
     # ---- n_jobs under the threading backend
     if CAT[name]["n_jobs"]:
@@ -1000,12 +1001,6 @@ def oracle(case, out):
     for c in out["calls"]:
         if c["mod"]:
             return "apply-modified-caller-data: %s.%s %s" % (name, c["label"], c["mod"])
-    for c in out["calls"]:
-        if c["params_changed"]:
-            return "apply-changed-estimator-params: %s.%s changed get_params() values" % (
-                name, c["label"])
-        if c["rng_consumed"]:
-            return "apply-consumed-rng-state: %s.%s advanced a random generator" % (name, c["label"])
     for tag, clause in (("repeat", "repeat-apply-differs"),
                         ("interleaved", "interleaved-apply-differs"),
                         ("fit-twice", "fit-twice-differs"),
@@ -1018,6 +1013,9 @@ def oracle(case, out):
     for c in out["calls"]:
         if c["same"].get("pickle") is False:
             return "pickle-roundtrip-differs: %s.%s %s" % (name, c["label"], c["diffs"].get("pickle"))
+    for c in out["calls"]:
+        if c["rng_consumed"]:
+            return "apply-consumed-rng-state: %s.%s advanced a random generator" % (name, c["label"])
     njs = [str(x) for x in case.get("n_jobs", [])] if CAT[name]["n_jobs"] else []
     for key in [x for x in njs if x != "None"] + [x for x in njs if x == "None"]:
         ferr = out["njobs_fit"].get(key)
@@ -1029,6 +1027,11 @@ def oracle(case, out):
             if c["same"].get("n_jobs=" + key) is False:
                 return "n-jobs-differs: %s.%s with n_jobs=%s %s" % (
                     name, c["label"], key, c["diffs"].get("n_jobs=" + key))
+    # last (so that it masks nothing else): constructor parameters changed by an apply-type call
+    for c in out["calls"]:
+        if c["params_changed"]:
+            return "apply-changed-estimator-params: %s.%s changed get_params() values" % (
+                name, c["label"])
     return None
 
 
@@ -1181,3 +1184,73 @@ def distribution(cases, results):
             for a in call["scratch"]:
                 d["scratch-attrs:%s.%s" % (c["est"], a)] += 1
     return dict(d)
+
+
+# ------------------------------------------------------------------------------------------------
+# model side
+
+CASES_HEADER = """From Coq Require Import ZArith List Bool.
+Require Import SkV.C12.Model SkV.C12.Cases.
+Import ListNotations.
+Open Scope Z_scope.
+"""
+
+IMETHOD = {"drift": "MDrift", "linear": "MInterp", "nearest": "MInterp", "constant": "MConstant",
+           "mean": "MMean", "sentinel": "MMean", "median": "MMedian", "bfill": "MFill",
+           "ffill": "MFill", "random": "MRandom", "forecaster": "MForecaster"}
+
+
+def _disc(case):
+    name = case["est"]
+    frame = cbool(case["input"].get("container") == "frame")
+    if name.startswith("Hampel"):
+        return "(DHampel %s)" % frame
+    if name.startswith("Imputer-"):
+        return "(DImputer %s %s)" % (IMETHOD[name.split("-", 1)[1]], frame)
+    return "DCopyFirst"
+
+
+def _cstore(bufs):
+    return clist([czlist(b) for b in bufs])
+
+
+def _cnatlist(ns):
+    return clist(["%d%%nat" % n for n in ns])
+
+
+def _cpairs(ps):
+    return clist(["(%s, %s)" % (cz(a), cz(b)) for a, b in ps])
+
+
+def coq_case(case, out):
+    k = case["kind"]
+    if k == "est":
+        calls = clist(["(%s, %s)" % (_cstore(b), _cstore(a)) for b, a in out["own"]])
+        pc = any(c["params_changed"] for c in out["calls"])
+        return "CEst %s %s %s" % (_disc(case), calls, cbool(pc))
+    if k == "pool":
+        return "CPool %s %s %s %s %s" % (cz(case["a"]), cz(case["b"]), czlist(case["tags"]),
+                                        _cnatlist(out["finish_order"]), czlist(out["collected"]))
+    if k == "intervals":
+        if "err" in out:
+            return "CIntervals %d%%nat %s %s [] None" % (
+                case["n_intervals"], cz(case["min_interval"]), cz(case["series_length"]))
+        return "CIntervals %d%%nat %s %s %s (Some %s)" % (
+            case["n_intervals"], cz(case["min_interval"]), cz(case["series_length"]),
+            _cpairs(out["draws"]), _cpairs(out["intervals"]))
+    return None
+
+
+def coq_model_term(case):
+    k = case["kind"]
+    if k == "est":
+        d = _disc(case)
+        return ("(is_safe false (prog_of %s []), "
+                "fst (apply 1 (prog_of %s [1]) [[60; 2; 3]; []] 0))" % (d, d))
+    if k == "pool":
+        n = len(case["tags"])
+        return ("parallel_map (pure_task (St := unit) (fun t => %s * t + %s)) %s tt %s"
+                % (cz(case["a"]), cz(case["b"]), czlist(case["tags"]),
+                   _cnatlist(list(range(n))[::-1])))
+    return "get_intervals lcg_randint %d%%nat %s %s %s" % (
+        case["n_intervals"], cz(case["min_interval"]), cz(case["series_length"]), cz(case["seed"]))
